@@ -6,6 +6,7 @@ CONSTANTS
   ModLocs = {}
   PVals = {}
   MVals = {}
+  OVals = {}
   WithDelSpace = FALSE
   OpenFindings = {}
   MaxOps = 0
